@@ -41,10 +41,35 @@ def outcomeClass {α} : Outcome α → String
 def judgeRead (cls : String) (ctx : String) (ty : GoType) (schema : Schema) (bytes : Bytes) (dst : GoVal) (sibs : Bool) (impl : Sexp) : Verdict :=
   let icls := implClass impl
   if icls == "clobber" then .oracle s!"bytes outside the destination struct were modified (canary clobbered): {impl}" else
+  if icls == "overrun" then .oracle s!"a decoded slice is longer than its capacity: items were stored past the end of the backing array (len cap): {impl}" else
   match buildCodec regLib 200 schema (some ty) false with
   | .error e =>
-    if icls == "builderr" then .ok s!"reject/{cls}"
-    else .diff s!"model: build error ({e}); implementation built a codec and answered {icls}"
+    if icls == "builderr" then .ok s!"reject/{cls}" else
+    -- the implementation built a decoder for a pair the model rejects
+    match buildCodec regLib 200 schema (some (widenInts ty)) false with
+    | .error _ =>
+      .oracle s!"a decoder was built for a mismatched (schema, Go type) pair, which the property requires to be rejected at build time (model: {e}); decoding answered {icls}"
+    | .ok wcodec =>
+      -- only an integer width the model does not know: emulate it as the 64-bit codec plus the range check of the field's width
+      let wdst := match dst, zeroVal (widenInts ty) with
+        | .struct [p, s, _, q], .struct [_, _, a, _] => if sibs then .struct [p, s, a, q] else zeroVal (widenInts ty)
+        | _, z => z
+      let wm := read timeEnv bigFuel wcodec bytes wdst
+      match impl, wm with
+      | .list [.atom "ok", g, r], .ok (mg, mr) =>
+        (match parseGoVal g, asNat r with
+         | some ig, some ir =>
+           if sibs && !sibsOK ig then .oracle s!"a sibling field not named in the schema changed: {renderGoVal ig}"
+           else if !(HasType ig ty) then .oracle s!"decoded value is not a value of the destination type: {renderGoVal ig}"
+           else if !(HasType mg ty) then .diff s!"an integer outside the field's range was accepted: model (64-bit) value {renderGoVal mg}"
+           else if renderGoVal mg == renderGoVal ig ∧ mr.length == ir then .ok s!"ext-int-width/{ctx}/ok"
+           else .diff s!"integer width unknown to the model; widened model read gives {renderGoVal mg}"
+         | _, _ => .bad "impl value")
+      | .list (.atom "err" :: _), .ok (mg, _) =>
+        if HasType mg ty then .diff s!"integer width unknown to the model; a fitting value was rejected ({renderGoVal mg})"
+        else .ok s!"ext-int-width/{ctx}/err"
+      | .list (.atom "err" :: _), .err => .ok s!"ext-int-width/{ctx}/err"
+      | _, _ => .diff s!"model: build error ({e}); implementation built a codec and answered {icls}"
   | .ok codec =>
     if icls == "builderr" then .diff "model builds a codec; implementation rejects the pair" else
     let aok := allocOK codec
